@@ -19,6 +19,15 @@ def fval(v):
     return SPECIALS[v] if isinstance(v, str) else float(v)
 
 
+def num(x):
+    """The exact Python number held by an array element (an int stays an int: no detour through float64)."""
+    if isinstance(x, (np.integer, np.bool_)):
+        return int(x)
+    if isinstance(x, np.generic):
+        return x.item()
+    return x
+
+
 class SimInterrupt(BaseException):
     """Injected interruption (the analogue of Ctrl-C / MemoryError); not an `Exception`."""
 
@@ -158,13 +167,16 @@ def _perform(self, t, act, endo):
         return
     if kind == 'delta':
         for j, nm in enumerate(endo):
-            d['_' + nm][t] = d['_' + nm][t] + fval(act['d'][j])
+            if d['_' + nm].dtype.kind in 'iu':
+                d['_' + nm][t] = int(d['_' + nm][t]) + int(act['d'][j])  # integer models: exact integer arithmetic
+            else:
+                d['_' + nm][t] = d['_' + nm][t] + fval(act['d'][j])
         return
     if kind == 'set':
         for j, nm in enumerate(endo):
             v = act['v'][j]
             if v is not None:
-                d['_' + nm][t] = fval(v)
+                d['_' + nm][t] = int(v) if (d['_' + nm].dtype.kind in 'iu' and not isinstance(v, str)) else fval(v)
         return
     if kind == 'half':
         # contraction towards c_j: x <- x/2 + c_j/2 (exact in binary for dyadic data)
@@ -198,7 +210,7 @@ def _column(d, t):
     out = {}
     for nm in d['names']:
         v = d['_' + nm][t]
-        out[nm] = float(v) if isinstance(v, (float, int, np.floating, np.integer)) else str(v)
+        out[nm] = num(v) if isinstance(v, (float, int, np.floating, np.integer)) else str(v)
     return out
 
 
@@ -231,7 +243,7 @@ def make_scripted(fsic, spec, bases=None, extra_attrs=None):
             'kw': sorted(kw),
             'errors': kw.get('errors'),
             'cfe': kw.get('catch_first_error'),
-            'pre': [float(d['_' + nm][t]) for nm in endo],
+            'pre': [num(d['_' + nm][t]) for nm in endo],
             'pre_all': _column(d, t) if ctl.columns else None,
             'filter': _filter_mode(),
             'exc': None,
@@ -262,8 +274,8 @@ def make_scripted(fsic, spec, bases=None, extra_attrs=None):
             ctl.raised.append(e)
             raise
         finally:
-            rec['post_endo'] = [float(d['_' + nm][t]) for nm in endo]
-            rec['post'] = [float(d['_' + nm][t]) for nm in check]
+            rec['post_endo'] = [num(d['_' + nm][t]) for nm in endo]
+            rec['post'] = [num(d['_' + nm][t]) for nm in check]
             if ctl.columns:
                 rec['post_all'] = _column(d, t)
 
@@ -295,6 +307,9 @@ def make_scripted(fsic, spec, bases=None, extra_attrs=None):
 def new_scripted_instance(cls, span, init, **kw):
     m = cls(span, **kw)
     for nm, vals in init.items():
+        if m.__dict__['_' + nm].dtype.kind in 'iu' and all(isinstance(v, int) for v in vals):
+            m.__dict__['_' + nm][:] = np.array(vals, dtype=np.int64)  # (exactly: these may lie beyond 2**53)
+            continue
         m.__dict__['_' + nm][:] = np.array([fval(v) for v in vals], dtype=float)
     attach_ctl(m)
     return m
@@ -325,7 +340,7 @@ def make_probed(fsic, base_cls, check=None):
             'kw': sorted(kw),
             'errors': kw.get('errors'),
             'cfe': kw.get('catch_first_error'),
-            'pre': [float(d['_' + nm][t]) for nm in endo] if -n <= t < n else None,
+            'pre': [num(d['_' + nm][t]) for nm in endo] if -n <= t < n else None,
             'pre_all': _column(d, t) if (ctl.columns and -n <= t < n) else None,
             'filter': _filter_mode(),
             'exc': None,
@@ -350,8 +365,8 @@ def make_probed(fsic, base_cls, check=None):
             if sink is not None:
                 sink.append(('@', 'end', hook, int(t)))
             if -n <= t < n:
-                rec['post_endo'] = [float(d['_' + nm][t]) for nm in endo]
-                rec['post'] = [float(d['_' + nm][t]) for nm in chk]
+                rec['post_endo'] = [num(d['_' + nm][t]) for nm in endo]
+                rec['post'] = [num(d['_' + nm][t]) for nm in chk]
                 if ctl.columns:
                     rec['post_all'] = _column(d, t)
 
